@@ -1,7 +1,7 @@
 """E6 hailenv — the `hail` Python package in-process, without the JVM engine.
 
     from vlib import hailenv
-    hl = hailenv.init()          # idempotent; ~0.6 s the first time (import hail dominates)
+    hl = hailenv.init()          # idempotent; ~0.8 s the first time (import hail ~0.6 s + 4 builtin references ~0.1 s)
 
 What this module provides
   * a real (small) PEG interpreter registered as `parsimonious` (+ .nodes/.exceptions/.grammar/.expressions) that
